@@ -185,7 +185,9 @@ def hash_in_children(ctx: Ctx, values: list, seeds: list, norders: int) -> dict:
         if p.returncode != 0:
             raise MachineryError(f"hash child (seed {s}) failed rc={p.returncode}:\n{out[-2000:]}")
         for r in json.loads(outp.read_text()):
-            obs[r["id"]].append({"seed": s, "ord": r["ord"], "h": r["h"], "o": r["o"]})
+            for h, o, ords in r["obs"]:
+                for oi in ords:
+                    obs[r["id"]].append({"seed": s, "ord": oi, "h": h, "o": o})
     return obs
 
 
@@ -261,7 +263,7 @@ def run(ctx: Ctx) -> None:
     values: list = []  # (id, tree, source)
     for name, tree, _ in fixed_witnesses():
         values.append((len(values) + 1, tree, f"witness {name}"))
-    nrand = ctx.pick(400, 4000)
+    nrand = ctx.pick(400, 3000)
     for _ in range(nrand):
         values.append((len(values) + 1, rand_hash_tree(ctx.rng, ctx.rng.randint(2, 4), ctx.pick(3, 4)), "random"))
 
@@ -299,7 +301,7 @@ def run(ctx: Ctx) -> None:
 
     _tick(ctx, f'universes in, {len(values)} values')
     # ---- 4. the real code, in child interpreters ---------------------------------------------------
-    seeds = ctx.pick([0, 1, 2], [0, 1, 2, 3, 4, 5, 77, 12345])
+    seeds = ctx.pick([0, 1, 2], [0, 1, 2, 3, 77, 12345])
     norders = ctx.pick(3, 4)
     obs = hash_in_children(ctx, [(vid, t) for vid, t, _ in values], seeds, norders)
     _tick(ctx, 'children done')
